@@ -584,6 +584,22 @@ func modeFuzz(seed uint64, n int, out *sx.Out) {
 		}
 		emitData(out, i, typ, hdr+sb.String(), nil, false, "spliced/"+fmt.Sprint(typ.String()))
 	}
+	// white space around and after the header, in runs shorter than, as long as and longer than the header itself: the offset
+	// of the body is computed on one reading of the message and used on another (trimmed / untrimmed)
+	k := 0
+	for _, hdr := range []string{"audit(1481077041.515:406)", "audit(1.002:3)", "audit(1.002:3):"} {
+		for _, ws := range []string{"\n", "\t", "\r\n", "\v", "\u0085", "\u00a0"} {
+			for _, run := range []int{1, len(hdr) - 1, len(hdr), len(hdr) + 1, 40} {
+				for _, tail := range []string{" ", "", " a=b", ": a=b"} {
+					for _, lead := range []string{"", " \n"} {
+						out.Begin(map[string]interface{}{"mode": "modeFuzz", "family": "whitespace-after-header", "header": hdr, "run": run})
+						emitData(out, n+k, auparse.AUDIT_EOE, lead+hdr+strings.Repeat(ws, run)+tail, nil, false, "spliced/whitespace-after-header")
+						k++
+					}
+				}
+			}
+		}
+	}
 }
 
 func main() {
